@@ -103,11 +103,13 @@ class C01(Prop):
     thorough_deadline_s = 800
     all_branches = ["o:ok", "o:fail-ros", "o:fail-guard", "d:tool", "d:literal", "d:keyword", "d:compare", "d:math",
                     "latched", "too-long", "b:within", "b:small-pow", "b:exceeds", "forced", "dg:text:ok", "dg:text:fail",
-                    "cdg:returned", "retable", "retimeout"]
+                    "cdg:returned", "retable", "retimeout", "console:utf8", "console:closed", "console:narrow",
+                    "console:lossy", "console:failat"]
     assumptions = [
         "CPython's parser, `str.lower/strip`, `json.loads` and `ast.literal_eval` are environment: their outcome on "
         "each input string is computed by CPython and handed to the model",
-        "tool bodies and allow-listed callables return or raise ordinary exceptions; console is UTF-8",
+        "tool bodies and allow-listed callables return or raise ordinary exceptions; the console (sys.stdout) is a "
+        "UTF-8 sink unless a `console` line replaces it (closed / strict narrow encoding / lossy / k-th write fails)",
         "`pathway` is None or a MetabolicPathway member (the annotated domain)",
         "recursion-limit effects (walker nesting between ~300 and the parser's own limit) are exercised by the "
         "totality oracle only, not by the model correspondence",
@@ -361,7 +363,41 @@ class C01(Prop):
                     lines.append(mito.met_line(pw, src))
         return {"lines": lines, "note": "history"}
 
+    # the console axis: kinds x position of the failing write
+    CONSOLES = [("closed", 0), ("ascii", 0), ("latin1", 0), ("cp1252", 0), ("asciirepl", 0), ("asciibs", 0), ("utf8", 0)] \
+        + [("failat", k) for k in (1, 2, 3, 4, 5, 6, 9)] + [("failatv", k) for k in (1, 2, 3, 4)]
+
+    def _on_console(self, case, r):
+        """the same case with `sys.stdout` replaced somewhere after the first engine was built (own random stream, so
+        that the cases drawn from `rng` stay what they were), usually on non-silent engines"""
+        lines = list(case["lines"])
+        cfgs = [j for j, l in enumerate(lines) if l.startswith("cfg ")]
+        if not cfgs:
+            return case
+        if r.random() < 0.75:
+            for j in cfgs:
+                t = lines[j].split(" ")
+                t[2] = "0"
+                lines[j] = " ".join(t)
+        kind, k = r.choice(self.CONSOLES)
+        if kind.startswith("failat"):
+            k = r.choice([1, 2, 3, 4, 5, 7, 8, 11, 12])
+        lines.insert(r.randrange(cfgs[0] + 1, len(lines) + 1), mito.console_line(kind, k))
+        if r.random() < 0.3:
+            kind, k = r.choice(self.CONSOLES)
+            lines.insert(r.randrange(cfgs[0] + 1, len(lines) + 1), mito.console_line(kind, k))
+        return {**case, "lines": lines, "note": case.get("note", "") + " + console"}
+
     def generate(self, rng, tier, n):
+        import os
+        import random
+        for i, case in enumerate(self._generate(rng, tier, n)):
+            r = random.Random(f"console-{os.environ.get('VERIF_SEED', '0')}-{tier}-{i}")
+            if r.random() < 0.12 and not any(l.startswith("bound ") for l in case["lines"]):
+                case = self._on_console(case, r)
+            yield case
+
+    def _generate(self, rng, tier, n):
         for i in range(n):
             if i % 6 == 3:
                 yield self._history_case(rng, rng.choice([1, 2, 3]))
@@ -616,6 +652,35 @@ class C01(Prop):
             cases.append({"lines": lines, "note": "narrowed allow-list (concrete)"})
         spaces.append({"name": "allow-list tables of a live engine narrowed (instance / class / in place / BioAgent's own "
                                "engine / subclass control) x every position of a dropped name or operator", "cases": cases})
+        # the console: every kind of stream x silent off / on x every entry point x auto-detected / forced pathway; a
+        # second engine on the same stream (the stream's write count runs on), a repaired console
+        cases = []
+        for (kind, k) in self.CONSOLES:
+            for silent in (False, True):
+                lines = mito.header(rng, facts, tools=[("tool1", [])], silent=silent, ros=(1000, 1))
+                lines.append(mito.console_line(kind, k))
+                for forced, src in (("auto", "t0 + t1"), ("auto", "t0 < t1"), ("math", "t0 * t1"), ("auto", "tool1(t0)"),
+                                    ("auto", "[1, 2]"), ("tool", "tool1(t1)"), ("logic", "t0 == t1"), ("auto", "t0 +")):
+                    lines.append(mito.met_line(forced, src))
+                lines.append(mito.dg_line("t0 - t1"))
+                lines.append(mito.cmet_line("auto", "2 + 2 * 10"))
+                lines.append(mito.cmet_line("auto", "1 < 2"))
+                lines.append(mito.cmet_line("math", "1 / 0"))
+                lines.append(mito.cmet_line("auto", "tool1(4)"))
+                lines.append(mito.cdg_line("2 + 2", False))
+                cases.append({"lines": lines, "note": "console"})
+            # the fault first, the engines afterwards: every engine's FIRST call meets it; two engines share the stream
+            lines = [mito.tables_line(facts, mito.TN), mito.console_line(kind, k)]
+            for silent in (False, True, False):
+                lines.append(mito.cfg_line(facts, rng.randrange(1, 10 ** 6), silent=silent, ros=(1000, 1)))
+                lines.append(f"tool {mito.hexs('tool1')} {mito.hexs('tool1')} -")
+                for forced, src in (("auto", "t0 + t1"), ("auto", "tool1(t0)"), ("math", "t1")):
+                    lines.append(mito.met_line(forced, src))
+            lines.append(mito.console_line("utf8", 0))
+            lines.append(mito.met_line("auto", "t0 + t1"))
+            cases.append({"lines": lines, "note": "console"})
+        spaces.append({"name": "console faults (closed / strict narrow encoding / lossy / k-th write fails) x silent "
+                               "off / on x entry point x auto / forced pathway", "cases": cases})
         # raw strings
         cases = []
         for (s, safe) in mito.raw_strings(self.max_len):
